@@ -1267,9 +1267,19 @@ def family_cg_restart(ctx, r, exact, n, opaque=False):
     else:
         M = sl.small_int_matrix(r, r.randint(2, 4), d)
         fn = conjugate_gradient_normal
-    op = odl.MatrixOperator(M)
     rhs = sl.dy_vec(r, M.shape[0], 16, 8)
     x0 = sl.dy_vec(r, d, 16, 8)
+    special = r.random()
+    spd = True
+    if special < 0.12:
+        rhs = M.dot(x0)                          # already solved: `return` before / in the first iteration
+        ctx.hit('model/cg_restart/early-return(start is the solution)')
+    elif special < 0.22 and variant == 'cg':
+        # symmetric INDEFINITE operator and a residual with <p, A p> = 0: `if inner_p_d == 0.0: return`
+        M = np.diag([1.0, -1.0] + [1.0] * (d - 2))
+        x0, rhs, spd = np.zeros(d), np.array([1.0, 1.0] + [0.0] * (d - 2)), False
+        ctx.hit('model/cg_restart/early-return(inner_p_d == 0)')
+    op = odl.MatrixOperator(M)
     a, b = r.randint(0, 3), r.randint(0, 3)
     p = dict(solver='cg_restart', opkind='{}{}x{}'.format(variant, M.shape[0], d), fk=variant, gk='-',
              x0=x0, cseed=r.cseed, exact=exact, opaque=opaque)
@@ -1306,7 +1316,8 @@ def family_cg_restart(ctx, r, exact, n, opaque=False):
                      p, n=a, m=b)
         # a restart is a complete CG run from x_n: d further iterations solve the (normal) equations
         # (well-conditioned small systems only; this is what a wrong carried residual / direction breaks)
-        if variant == 'cg' or (np.linalg.matrix_rank(M) == d and np.linalg.cond(M) < 50):
+        if (variant == 'cg' and spd) or (variant == 'cgn' and np.linalg.matrix_rank(M) == d
+                                         and np.linalg.cond(M) < 50):
             st_c, _, xc = call(mid, d)
             res = rhs - M.dot(xc) if variant == 'cg' else M.T.dot(rhs - M.dot(xc))
             scale = 1.0 + float(np.max(np.abs(rhs))) * (1.0 if variant == 'cg' else float(np.max(np.abs(M))) * d)
@@ -1412,6 +1423,477 @@ def family_kaczmarz_random(ctx, r, exact, n, opaque=False):
     return cases
 
 
+# ---------------------------------------------------------------------------
+# ROUND 5: strata for the anchored functions no stream entered (docs/covmap/C11.md)
+
+def _neg_list(spec_list):
+    return fl([-v for v in core.pfl(spec_list)])
+
+
+def family_dca(ctx, r, exact, n, opaque=False):
+    """difference_convex.dca / prox_dca: the whole state is the iterate -> the split-run oracle
+    applies in full (all splittings n = a + b), one callback per iteration.  Model: both loop bodies
+    are instances of ProxGradP.step (lam = 1): prox_dca is x <- prox_{gamma f}(x + gamma grad g(x)),
+    i.e. step size -gamma; dca is x <- grad f*(grad g(x)), i.e. 'proximal' grad f*, 'gradient'
+    x - grad g(x), step 1."""
+    import odl
+    from odl.solvers.nonsmooth.difference_convex import dca, prox_dca
+    variant = r.choice(['dca', 'prox_dca'])
+    d = r.randint(1, 4)
+    space = odl.rn(d) if r.random() < 0.7 else odl.uniform_discr(0, d, d)
+    G = sl.functional_zoo(r, space, smooth=True, exact=exact)
+    if variant == 'dca':
+        F = sl.functional_zoo(r, space, smooth=True, exact=exact)
+        gamma = 1.0
+        pf = {'l2sq': lambda: 'scale:1/2', 'half_l2sq': lambda: 'id',
+              'l2sq_t': lambda: 'affine:1/2:' + F.prox(1).split(':')[1]}[F.name]()
+        gparts = G.grad.split(':')
+        gg = {'scale': lambda: 'scale:-1', 'id': lambda: 'scale:0',
+              'affine': lambda: 'affine:-1:' + _neg_list(gparts[2])}[gparts[0]]()
+        mgamma = 1
+        n = min(n, 12)
+    else:
+        F = sl.functional_zoo(r, space, exact=exact)
+        gamma = sl.pick_step(r, exact)
+        pf, gg, mgamma = F.prox(gamma), G.grad, -core.frac(gamma)
+        n = min(n, 12)
+    p = dict(solver='dca', opkind=variant, space=space, fk=F.name, gk=G.name, gamma=gamma,
+             x0=sl.dy_vec(r, d, 16, 8), cseed=r.cseed, exact=exact, opaque=opaque)
+
+    def runner(state, k, mode='same'):
+        mk = sl.unflat_distinct if mode == 'distinct-space' else unflat
+        x = mk(space, p['x0'] if state is None else state[0])
+        rec = Recorder()
+        if variant == 'dca':
+            st, _ = guarded(dca, x, F.f, G.f, k, callback=rec)
+        else:
+            st, _ = guarded(prox_dca, x, F.f, G.f, k, gamma, callback=rec)
+        return st, rec.iterates, (flat(x).copy(),)
+    runner.modes = ('distinct-space',)
+    st, log, full = resume_oracle(ctx, p, n, runner, variant)
+    if st == 'ok':
+        check_callback(ctx, p, n, log, full[0], variant)
+    sig = ('model', 'dca', variant, p['fk'], p['gk'], steps_class(exact), n)
+    nt = st == 'ok' and nontrivial(log, p['x0'])
+    line = 'proxgrad pf={} gg={} gamma={} lam=1 x0={} n={}'.format(pf, gg, fs(mgamma), fl(p['x0']), n)
+    ctx.hit('model/dca/' + variant)
+    return [Case(desc_of(p, n=n), sig if nt else None, line, st, log, {'x': full[0]} if st == 'ok' else {})]
+
+
+def family_apg_restart(ctx, r, exact, n, opaque=False):
+    """accelerated_proximal_gradient: momentum y and t are locals -> a second call is a restart.
+    Oracle (real code only): one callback per iteration, the last being the result; niter=0 leaves
+    x alone; the FIRST iterate of every call is one proximal_gradient iteration (lam=1) from the same
+    x (C11.apg_first_step_is_proximal_gradient), computed with the real proximal_gradient.
+    Model: ProxGradP.accRunSplit."""
+    from odl.solvers import accelerated_proximal_gradient, proximal_gradient
+    p = gen_proxgrad(r, exact, False)
+    p.update(solver='apg_restart', cseed=r.cseed, exact=exact, opaque=opaque, lam=1.0)
+    n = min(n, 8)
+    a = r.randint(0, n)
+    key = 'accelerated_proximal_gradient f={} g={}'.format(p['fk'], p['gk'])
+
+    def call(x_start, k, mk=unflat):
+        x = mk(p['space'], x_start)
+        rec = Recorder()
+        st, _ = guarded(accelerated_proximal_gradient, x, p['f'], p['g'], p['gamma'], k, callback=rec)
+        return st, rec.iterates, flat(x).copy()
+    st1, log1, mid = call(p['x0'], a)
+    st2, log2, end = call(mid, n - a, sl.unflat_distinct if r.random() < 0.3 else unflat)
+    st = st1 if st1 != 'ok' else st2
+    if st != 'ok':
+        ctx.err(err_kind(st))
+    else:
+        for k, lg, res, start in ((a, log1, mid, p['x0']), (n - a, log2, end, mid)):
+            if len(lg) != k or (lg and np.any(lg[-1] != res)) or (not lg and np.any(res != start)):
+                viol(ctx, key + ': callback', '{} callbacks in {} iterations; last {} result {} start {}'.format(
+                    len(lg), k, lg[-1] if lg else None, res, start), p, n=a, m=n - a)
+            if lg:
+                xp = unflat(p['space'], start)
+                stp, _ = guarded(proximal_gradient, xp, p['f'], p['g'], p['gamma'], 1)
+                dd = stp if stp != 'ok' else sl.arrays_differ([lg[0]], [flat(xp)])
+                if dd:
+                    viol(ctx, key + ': first iterate of a call', 'is not the proximal_gradient iterate from '
+                         'the same x: ' + str(dd), p, n=a, m=n - a)
+        st_f, _, full = call(p['x0'], n)
+        ctx.hit('excluded/accelerated_proximal_gradient n then m vs n+m: ' +
+                ('differs' if st_f != 'ok' or sl.arrays_differ([full], [end]) else 'same'))
+    log = list(log1) + list(log2)
+    sig = ('model', 'apg_restart', p['fk'], p['gk'], steps_class(exact), a, n - a)
+    nt = st == 'ok' and nontrivial(log, p['x0'])
+    line = 'apgsplit pf={} gg={} gamma={} x0={} n={} m={}'.format(
+        p['F'].prox(p['gamma']), p['G'].grad, fs(p['gamma']), fl(p['x0']), a, n - a)
+    ctx.hit('model/apg_restart/split=' + ('trivial' if a in (0, n) else 'proper'))
+    return [Case(desc_of(p, n=a, m=n - a), sig if nt else None, line, st, log,
+                 {'x': end, '_inexact': True} if st == 'ok' else {})]
+
+
+def family_dr_restart(ctx, r, exact, n, opaque=False):
+    """douglas_rachford_pd (+ douglas_rachford_pd_stepsize, _operator_norms).  Oracle (real code only):
+    one callback per iteration and the LAST callback iterate is the returned x (x.assign(p1));
+    niter=0 leaves x alone; default step sizes (tau / sigma not given, numpy seeded) give the run
+    with the values douglas_rachford_pd_stepsize returns, which for float norms are the documented
+    closed forms.  Model: DrP.runSplit (the dual variables restart at zero in a second call)."""
+    import odl
+    from odl.solvers import douglas_rachford_pd
+    from odl.solvers.nonsmooth.douglas_rachford import douglas_rachford_pd_stepsize
+    p0 = gen_adupdates(r, exact, False)
+    Ls, Gs, m = p0['Ls'], p0['Gs'], p0['m']
+    dom = Ls[0].domain
+    F = sl.functional_zoo(r, dom, exact=exact)
+    tau = sl.pick_step(r, exact)
+    sigma = [sl.pick_step(r, exact) for _ in range(m)]
+    lam = r.choice([1.0, 1.0, 0.5, 1.5])
+    lam_callable = r.random() < 0.3
+    with_l = r.random() < 0.3
+    Ll = [sl.functional_zoo(r, L.range, kind=r.choice(['l2sq', 'half_l2sq']), exact=exact) for L in Ls] \
+        if with_l else None
+    n = min(n, 8)
+    a = r.randint(0, n)
+    p = dict(solver='dr_restart', opkind=p0['opkind'], fk=F.name, gk=p0['gk'], tau=tau, m=m,
+             x0=p0['x0'], cseed=r.cseed, exact=exact, opaque=opaque)
+    key = 'douglas_rachford_pd ranges={} f={} g={}{}'.format(p['opkind'], p['fk'], p['gk'], ' l' if with_l else '')
+
+    def call(x_start, k, mk=unflat, **over):
+        x = mk(dom, x_start)
+        rec = Recorder()
+        kw = {'lam': (lambda _: lam) if lam_callable else lam}
+        if with_l:
+            kw['l'] = [q.f for q in Ll]
+        st, _ = guarded(douglas_rachford_pd, x, F.f, [G.f for G in Gs], Ls, k, callback=rec,
+                        tau=over.get('tau', tau), sigma=over.get('sigma', sigma), **kw)
+        return st, rec.iterates, flat(x).copy()
+    st1, log1, mid = call(p['x0'], a)
+    st2, log2, end = call(mid, n - a, sl.unflat_distinct if r.random() < 0.3 else unflat)
+    st = st1 if st1 != 'ok' else st2
+    if st != 'ok':
+        ctx.err(err_kind(st))
+    else:
+        for k, lg, res, start in ((a, log1, mid, p['x0']), (n - a, log2, end, mid)):
+            if len(lg) != k or (lg and np.any(lg[-1] != res)) or (not lg and np.any(res != start)):
+                viol(ctx, key + ': callback', '{} callbacks in {} iterations; last {} result {} start {}'.format(
+                    len(lg), k, lg[-1] if lg else None, res, start), p, n=a, m=n - a)
+        st_f, _, full = call(p['x0'], n)
+        ctx.hit('excluded/douglas_rachford_pd n then m (v restarts at zero) vs n+m: ' +
+                ('differs' if st_f != 'ok' or sl.arrays_differ([full], [end]) else 'same'))
+        # default step sizes
+        which = r.choice(['both-default', 'tau-given', 'sigma-given'])
+        t_in = tau if which == 'tau-given' else None
+        s_in = sigma if which == 'sigma-given' else None
+        npseed = r.randint(0, 2 ** 31 - 1)
+        np.random.seed(npseed)
+        st_s, steps = guarded(douglas_rachford_pd_stepsize, Ls, t_in, s_in)
+        np.random.seed(npseed)
+        st_a, log_a, _ = call(p['x0'], n, tau=t_in, sigma=s_in)
+        ctx.hit('oracle/dr_restart/stepsize=' + which)
+        if st_s != 'ok' or st_a != 'ok':
+            viol(ctx, key + ': default step sizes ' + which, 'failed: {} / {}'.format(st_s, st_a), p, n=n)
+        else:
+            st_b, log_b, _ = call(p['x0'], n, tau=steps[0], sigma=list(steps[1]))
+            dd = st_b if st_b != 'ok' else sl.arrays_differ(log_a, log_b)
+            if dd:
+                viol(ctx, key + ': default step sizes ' + which, 'run with tau/sigma left out differs from the '
+                     'run with the values of douglas_rachford_pd_stepsize: ' + str(dd), p, n=n)
+        # closed forms on float norms (a mixture of floats and operators goes through _operator_norms)
+        norms = [r.choice([0.5, 1.0, 2.0, 3.0]) for _ in range(m)]
+        st_c, got = guarded(douglas_rachford_pd_stepsize, norms, t_in, s_in)
+        if which == 'both-default':
+            wt = 1.0 / sum(norms)
+            want = (wt, [2.0 / (m * wt * c ** 2) for c in norms])
+        elif which == 'tau-given':
+            want = (tau, [2.0 / (m * tau * c ** 2) for c in norms])
+        else:
+            want = (2.0 / sum(si * c ** 2 for si, c in zip(sigma, norms)), sigma)
+        if st_c != 'ok' or abs(got[0] - want[0]) > 1e-12 * abs(want[0]) or len(got[1]) != m or any(
+                abs(u - v) > 1e-12 * abs(v) for u, v in zip(got[1], want[1])):
+            viol(ctx, 'douglas_rachford_pd_stepsize closed form ' + which,
+                 'norms {} tau {} sigma {}: got {} want {}'.format(norms, t_in, s_in, got, want), p, n=n)
+    log = list(log1) + list(log2)
+    sig = ('model', 'dr_restart', p['opkind'], p['fk'], p['gk'], with_l, lam, steps_class(exact), a, n - a)
+    nt = st == 'ok' and nontrivial(log, p['x0'])
+    mats = [wire_op(L) for L in Ls]
+    fields = ' '.join('A{0}={1} At{0}={2} p{0}={3}{4}'.format(
+        i, fmat(mats[i][0]), fmat(mats[i][1]), Gs[i].cprox(sigma[i]),
+        ' pl{}={}'.format(i, Ll[i].cprox(sigma[i])) if with_l else '') for i in range(m))
+    line = 'drsplit m={} {} pf={} tau={} sigma={} lam={} x0={} n={} k={}'.format(
+        m, fields, F.prox(tau), fs(tau), fl(sigma), fs(lam), fl(p['x0']), a, n - a)
+    ctx.hit('model/dr_restart/' + ('l-given' if with_l else 'l=None'))
+    ctx.hit('model/dr_restart/lam=' + ('callable' if lam_callable else 'number'))
+    return [Case(desc_of(p, n=a, m=n - a), sig if nt else None, line, st, log,
+                 {'x': end} if st == 'ok' else {})]
+
+
+def family_gauss_newton(ctx, r, exact, n, opaque=False):
+    """gauss_newton (+ exp_zero_seq): x0 = x.copy(), the warm start dx of the inner CG and the position
+    in zero_seq are hidden state -> a second call is a restart.  Oracle (real code only): one callback
+    per iteration, the last being the result; niter=0 leaves x alone; exp_zero_seq(b) yields b^-(k+1);
+    REPEATABILITY: the same call made twice gives the same iterates, with a fresh zero_seq passed in
+    and with the default zero_seq; n then m with ONE generator object shared = ... is the excluded class."""
+    import odl
+    from odl.solvers import gauss_newton
+    from odl.solvers.iterative.iterative import exp_zero_seq
+    d = r.randint(1, 3)
+    M = sl.small_int_matrix(r, r.randint(1, 3), d)
+    A = odl.MatrixOperator(M)
+    nl = r.random() < 0.4
+    op = A * odl.PowerOperator(A.domain, 2) if nl else A
+    rhs = sl.dy_vec(r, M.shape[0], 8, 8)
+    x0 = sl.dy_vec(r, d, 8, 8)
+    base = r.choice([2.0, 4.0, 2.0, 1.5])
+    n = min(n, 4)
+    p = dict(solver='gauss_newton', opkind='matrix*square' if nl else 'matrix', fk='base={}'.format(base),
+             gk='-', x0=x0, cseed=r.cseed, exact=exact, opaque=opaque)
+    key = 'gauss_newton opkind={}'.format(p['opkind'])
+    seq = exp_zero_seq(base)
+    got = [next(seq) for _ in range(5)]
+    if any(abs(v - base ** (-(k + 1))) > 1e-15 * base ** (-(k + 1)) for k, v in enumerate(got)):
+        viol(ctx, 'exp_zero_seq closed form', 'base {}: {}'.format(base, got), p, n=n)
+
+    def call(x_start, k, zs='fresh'):
+        x = unflat(op.domain, x_start)
+        rec = Recorder()
+        kw = {} if zs == 'default' else {'zero_seq': exp_zero_seq(base) if zs == 'fresh' else zs}
+        st, _ = guarded(gauss_newton, op, x, unflat(op.range, rhs), k, callback=rec, **kw)
+        return st, rec.iterates, flat(x).copy()
+    st, log, full = call(x0, n)
+    if st != 'ok':
+        ctx.err(err_kind(st))
+    else:
+        if not all(sl.finite(v) for v in log):
+            ctx.hit('gauss_newton/non-finite run (skipped)')
+        else:
+            if len(log) != n or (n and np.any(log[-1] != full)):
+                viol(ctx, key + ': callback', '{} callbacks in {} iterations'.format(len(log), n), p, n=n)
+            st0, log0, x_0 = call(x0, 0)
+            if st0 != 'ok' or log0 or np.any(x_0 != x0):
+                viol(ctx, key + ': niter=0', 'changes x or calls back ({})'.format(st0), p, n=n)
+            st_r, log_r, _ = call(x0, n)
+            dd = st_r if st_r != 'ok' else sl.arrays_differ(log_r, log)
+            if dd:
+                viol(ctx, key + ': the same call twice, fresh zero_seq passed', 'iterates differ: ' + str(dd), p, n=n)
+            st_a, log_a, _ = call(x0, n, 'default')
+            st_b, log_b, _ = call(x0, n, 'default')
+            dd = (st_a if st_a != 'ok' else None) or (st_b if st_b != 'ok' else None) or \
+                sl.arrays_differ(log_a, log_b)
+            ctx.hit('oracle/gauss_newton/repeatability')
+            if dd and n:
+                viol(ctx, 'gauss_newton: the same call twice with the DEFAULT zero_seq',
+                     'iterates differ (the default generator is shared by all calls): ' + str(dd), p, n=n)
+            if n >= 2:
+                zs = exp_zero_seq(base)
+                st1, _, mid = call(x0, n // 2, zs)
+                st2, _, end = call(mid, n - n // 2, zs)
+                ctx.hit('excluded/gauss_newton n then m (x0, dx restart) vs n+m: ' +
+                        ('differs' if st1 != 'ok' or st2 != 'ok' or sl.arrays_differ([end], [full]) else 'same'))
+    ctx.case(('oracle', 'gauss_newton', p['opkind'], base, n) if st == 'ok' and nontrivial(log, x0) else None)
+    ctx.hit('oracle/gauss_newton/' + ('nonlinear-op' if nl else 'linear-op'))
+    return []
+
+
+def family_adam(ctx, r, exact, n, opaque=False):
+    """adam: the moment estimates m, v are locals -> restart.  Oracle (real code only): at most one
+    callback per iteration, the last being the result; maxiter=0 and a gradient below tol leave x alone;
+    the first step from any x is -learning_rate*sqrt(1-beta2)/(1-beta1) * m/(sqrt(v)+eps) with
+    m = (1-beta1) grad, v = (1-beta2) grad^2 (numpy, from the real gradient)."""
+    import odl
+    from odl.solvers.smooth.gradient import adam
+    d = r.randint(1, 3)
+    space = odl.rn(d)
+    G = sl.functional_zoo(r, space, smooth=True, exact=exact)
+    x0 = sl.dy_vec(r, d, 16, 8)
+    lr, b1, b2 = r.choice([0.125, 0.5, 1e-3]), r.choice([0.9, 0.5]), r.choice([0.999, 0.75])
+    tol = r.choice([1e-16, 1e-16, 1e6])
+    n = min(n, 8)
+    p = dict(solver='adam', opkind='space', fk=G.name, gk='tol={}'.format(tol), x0=x0, cseed=r.cseed,
+             exact=exact, opaque=opaque)
+    key = 'adam f={}'.format(G.name)
+
+    def call(x_start, k):
+        x = unflat(space, x_start)
+        rec = Recorder()
+        st, _ = guarded(adam, G.f, x, learning_rate=lr, beta1=b1, beta2=b2, maxiter=k, tol=tol, callback=rec)
+        return st, rec.iterates, flat(x).copy()
+    st, log, full = call(x0, n)
+    if st != 'ok':
+        ctx.err(err_kind(st))
+    else:
+        g0 = flat(G.f.gradient(unflat(space, x0)))
+        small = float(np.sqrt(np.sum(g0 ** 2))) < tol
+        if len(log) > n or (log and np.any(log[-1] != full)) or (not log and np.any(full != x0)):
+            viol(ctx, key + ': callback', '{} callbacks in {} iterations'.format(len(log), n), p, n=n)
+        if small and log:
+            viol(ctx, key + ': tolerance', 'gradient norm below tol but {} steps taken'.format(len(log)), p, n=n)
+        ctx.hit('oracle/adam/' + ('stopped-by-tol' if small else 'steps'))
+        if log and not small:
+            want = x0 - lr * np.sqrt(1 - b2) / (1 - b1) * ((1 - b1) * g0) / (np.sqrt((1 - b2) * g0 ** 2) + 1e-8)
+            dd = sl.arrays_differ([log[0]], [want])
+            if dd:
+                viol(ctx, key + ': first step', dd, p, n=n)
+        if n >= 2 and not small:
+            st1, _, mid = call(x0, n // 2)
+            st2, _, end = call(mid, n - n // 2)
+            ctx.hit('excluded/adam n then m (moments restart) vs n+m: ' +
+                    ('differs' if st1 != 'ok' or st2 != 'ok' or sl.arrays_differ([end], [full]) else 'same'))
+    ctx.case(('oracle', 'adam', G.name, lr, b1, b2, tol, n) if st == 'ok' and nontrivial(log, x0) else None)
+    return []
+
+
+def family_refusals(ctx, r, exact, n, opaque=False):
+    """Argument validation and defaults of the anchored solvers.  Oracle (real code only): a call the
+    solver must refuse raises the documented exception type BEFORE touching x (x is bit-identical
+    afterwards, no callback); pdhg / landweber with their default step (numpy seeded) run exactly like
+    the call with the value pdhg_stepsize / 1/norm^2 gives; pdhg_stepsize on a float norm returns the
+    documented closed forms."""
+    import odl
+    S = odl.solvers
+    from odl.solvers.nonsmooth.admm import admm_linearized
+    from odl.solvers.nonsmooth.alternating_dual_updates import adupdates
+    from odl.solvers.nonsmooth.difference_convex import dca, prox_dca, doubleprox_dc
+    from odl.solvers.nonsmooth.douglas_rachford import douglas_rachford_pd, douglas_rachford_pd_stepsize
+    from odl.solvers.nonsmooth.primal_dual_hybrid_gradient import pdhg, pdhg_stepsize
+    from odl.solvers.smooth.gradient import adam
+    d, m = r.randint(1, 3), r.randint(1, 3)
+    M = sl.small_int_matrix(r, m, d)
+    A = odl.MatrixOperator(M)
+    X, Y = A.domain, A.range
+    other = odl.rn(d + 1)
+    f, g = S.L1Norm(X), S.L2NormSquared(Y)
+    fo = S.L1Norm(other)
+    x0 = sl.dy_vec(r, d, 16, 8)
+    I = odl.IdentityOperator(X)
+    sq = odl.MatrixOperator(np.eye(d))
+    rec = Recorder()
+    ok = (TypeError, ValueError)
+    table = [
+        ('pdhg L not an operator', lambda x: pdhg(x, f, g, 'L', 2, tau=0.5, sigma=0.5), ok, X),
+        ('pdhg x not in L.domain', lambda x: pdhg(x, fo, g, A, 2, tau=0.5, sigma=0.5), ok, other),
+        ('pdhg f.domain != L.domain', lambda x: pdhg(x, fo, g, A, 2, tau=0.5, sigma=0.5), ok, X),
+        ('pdhg niter negative', lambda x: pdhg(x, f, g, A, -1, tau=0.5, sigma=0.5), ok, X),
+        ('pdhg theta out of range', lambda x: pdhg(x, f, g, A, 2, tau=0.5, sigma=0.5, theta=1.5), ok, X),
+        ('pdhg gamma_primal negative', lambda x: pdhg(x, f, g, A, 2, tau=0.5, sigma=0.5, gamma_primal=-1), ok, X),
+        ('pdhg gamma_dual negative', lambda x: pdhg(x, f, g, A, 2, tau=0.5, sigma=0.5, gamma_dual=-1), ok, X),
+        ('pdhg both gammas', lambda x: pdhg(x, f, g, A, 2, tau=0.5, sigma=0.5, gamma_dual=1, gamma_primal=1), ok, X),
+        ('pdhg callback not callable', lambda x: pdhg(x, f, g, A, 2, tau=0.5, sigma=0.5, callback=3), ok, X),
+        ('pdhg x_relax not in domain', lambda x: pdhg(x, f, g, A, 2, tau=0.5, sigma=0.5, x_relax=other.zero()), ok, X),
+        ('pdhg y not in range', lambda x: pdhg(x, f, g, A, 2, tau=0.5, sigma=0.5, y=odl.rn(m + 1).zero()), ok, X),
+        ('admm L not an operator', lambda x: admm_linearized(x, f, g, 'L', 0.5, 0.5, 2), ok, X),
+        ('admm x not in L.domain', lambda x: admm_linearized(x, fo, g, A, 0.5, 0.5, 2), ok, other),
+        ('admm tau non-positive', lambda x: admm_linearized(x, f, g, A, 0.0, 0.5, 2), ok, X),
+        ('admm sigma non-positive', lambda x: admm_linearized(x, f, g, A, 0.5, -1.0, 2), ok, X),
+        ('admm niter fractional', lambda x: admm_linearized(x, f, g, A, 0.5, 0.5, 1.5), ok, X),
+        ('admm callback not callable', lambda x: admm_linearized(x, f, g, A, 0.5, 0.5, 2, callback=3), ok, X),
+        ('adupdates len(L) != len(g)', lambda x: adupdates(x, [g], [A, A], 1.0, [0.5], 2), ok, X),
+        ('adupdates len(inner_stepsizes)', lambda x: adupdates(x, [g], [A], 1.0, [0.5, 0.5], 2), ok, X),
+        ('adupdates domains differ', lambda x: adupdates(x, [g, fo], [A, odl.IdentityOperator(other)], 1.0, [0.5, 0.5], 2), ok, X),
+        ('adupdates range != g.domain', lambda x: adupdates(x, [S.L1Norm(odl.rn(m + 1))], [A], 1.0, [0.5], 2), ok, X),
+        ('adupdates callback_loop', lambda x: adupdates(x, [g], [A], 1.0, [0.5], 2, callback=rec, callback_loop='both'), ok, X),
+        ('landweber x not in domain', lambda x: S.landweber(A, x, Y.zero(), 2, omega=0.1), ok, other),
+        ('kaczmarz domains differ', lambda x: S.kaczmarz([A, odl.IdentityOperator(other)], x, [Y.zero(), other.zero()], 2), ok, X),
+        ('kaczmarz x not in domain', lambda x: S.kaczmarz([A], x, [Y.zero()], 2), ok, other),
+        ('kaczmarz len(rhs)', lambda x: S.kaczmarz([A, A], x, [Y.zero()], 2), ok, X),
+        ('conjugate_gradient domain != range', lambda x: S.conjugate_gradient(odl.MatrixOperator(np.ones((d + 1, d))), x, other.zero(), 2), ok, X),
+        ('conjugate_gradient x not in domain', lambda x: S.conjugate_gradient(sq, x, X.zero(), 2), ok, other),
+        ('osmlem len(data)', lambda x: S.osmlem([A, A], x, [Y.one()], 2), ok, X),
+        ('osmlem x not in domains', lambda x: S.osmlem([A], x, [Y.one()], 2), ok, other),
+        ('doubleprox_dc phi.domain', lambda x: doubleprox_dc(x, Y.zero(), f, fo, g, A, 2, 0.5, 0.5), ok, X),
+        ('doubleprox_dc K.domain', lambda x: doubleprox_dc(x, Y.zero(), fo, fo, g, A, 2, 0.5, 0.5), ok, other),
+        ('doubleprox_dc K.range', lambda x: doubleprox_dc(x, Y.zero(), f, S.L2NormSquared(X), S.L1Norm(odl.rn(m + 1)), A, 2, 0.5, 0.5), ok, X),
+        ('dca domains differ', lambda x: dca(x, S.L2NormSquared(X), S.L2NormSquared(other), 2), ok, X),
+        ('prox_dca domains differ', lambda x: prox_dca(x, f, S.L2NormSquared(other), 2, 0.5), ok, X),
+        ('proximal_gradient x not in f.domain', lambda x: S.proximal_gradient(x, fo, S.L2NormSquared(X), 0.5, 2), ok, X),
+        ('proximal_gradient x not in g.domain', lambda x: S.proximal_gradient(x, f, S.L2NormSquared(other), 0.5, 2), ok, X),
+        ('proximal_gradient gamma non-positive', lambda x: S.proximal_gradient(x, f, S.L2NormSquared(X), 0.0, 2), ok, X),
+        ('proximal_gradient niter fractional', lambda x: S.proximal_gradient(x, f, S.L2NormSquared(X), 0.5, 1.5), ok, X),
+        ('accelerated_proximal_gradient x not in f.domain', lambda x: S.accelerated_proximal_gradient(x, fo, S.L2NormSquared(X), 0.5, 2), ok, X),
+        ('accelerated_proximal_gradient x not in g.domain', lambda x: S.accelerated_proximal_gradient(x, f, S.L2NormSquared(other), 0.5, 2), ok, X),
+        ('accelerated_proximal_gradient gamma non-positive', lambda x: S.accelerated_proximal_gradient(x, f, S.L2NormSquared(X), -0.5, 2), ok, X),
+        ('accelerated_proximal_gradient niter fractional', lambda x: S.accelerated_proximal_gradient(x, f, S.L2NormSquared(X), 0.5, 1.5), ok, X),
+        ('steepest_descent x not in domain', lambda x: S.steepest_descent(S.L2NormSquared(X), x, line_search=0.1, maxiter=2), ok, other),
+        ('adam x not in domain', lambda x: adam(S.L2NormSquared(X), x, maxiter=2), ok, other),
+        ('gauss_newton x not in domain', lambda x: S.gauss_newton(A, x, Y.zero(), 2), ok, other),
+        ('douglas_rachford_pd L not operators', lambda x: douglas_rachford_pd(x, f, [g], ['L'], 2, tau=0.5, sigma=[0.5]), ok, X),
+        ('douglas_rachford_pd non-linear L', lambda x: douglas_rachford_pd(x, f, [S.L2NormSquared(X)], [odl.PowerOperator(X, 2)], 2, tau=0.5, sigma=[0.5]), ok, X),
+        ('douglas_rachford_pd x not in domains', lambda x: douglas_rachford_pd(x, fo, [g], [A], 2, tau=0.5, sigma=[0.5]), ok, other),
+        ('douglas_rachford_pd len(g)', lambda x: douglas_rachford_pd(x, f, [g, g], [A], 2, tau=0.5, sigma=[0.5]), ok, X),
+        ('douglas_rachford_pd len(sigma)', lambda x: douglas_rachford_pd(x, f, [g], [A], 2, tau=0.5, sigma=[0.5, 0.5]), ok, X),
+        ('douglas_rachford_pd len(l)', lambda x: douglas_rachford_pd(x, f, [g], [A], 2, tau=0.5, sigma=[0.5], l=[g, g]), ok, X),
+        ('douglas_rachford_pd lam out of range', lambda x: douglas_rachford_pd(x, f, [g], [A], 2, tau=0.5, sigma=[0.5], lam=2.5), ok, X),
+        ('douglas_rachford_pd unknown keyword', lambda x: douglas_rachford_pd(x, f, [g], [A], 2, tau=0.5, sigma=[0.5], foo=1), ok, X),
+        ('douglas_rachford_pd_stepsize invalid entry', lambda x: douglas_rachford_pd_stepsize(['L']), ok, X),
+    ]
+    p = dict(solver='refusals', opkind='matrix{}x{}'.format(m, d), fk='-', gk='-', x0=x0, cseed=r.cseed,
+             exact=exact, opaque=opaque)
+    for name, fn, excs, space in r.sample(table, 14):
+        start = sl.dy_vec(r, size_of(space), 16, 8)
+        x = unflat(space, start)
+        rec.iterates = []
+        try:
+            fn(x)
+            out = 'no exception'
+        except excs:
+            out = None
+        except Exception as e:  # noqa
+            out = 'raised {}: {}'.format(type(e).__name__, str(e)[:120])
+        ctx.hit('refusal/' + name)
+        if out is None and (np.any(flat(x) != start) or rec.iterates):
+            out = 'x was modified / callback was called before the refusal'
+        if out:
+            viol(ctx, 'refused call: ' + name, out, p, n=n)
+    # defaults
+    npseed = r.randint(0, 2 ** 31 - 1)
+    k = r.randint(1, 4)
+    which = r.choice(['both-default', 'tau-given', 'sigma-given'])
+    t_in = 0.25 if which == 'tau-given' else None
+    s_in = 0.5 if which == 'sigma-given' else None
+    np.random.seed(npseed)
+    st_s, steps = guarded(pdhg_stepsize, A, t_in, s_in)
+
+    def run_pdhg(tau, sigma):
+        x = unflat(X, x0)
+        rc = Recorder()
+        np.random.seed(npseed)
+        st, _ = guarded(pdhg, x, f, g, A, k, tau=tau, sigma=sigma, callback=rc)
+        return st, rc.iterates
+    st_a, log_a = run_pdhg(t_in, s_in)
+    ctx.hit('oracle/pdhg default steps/' + which)
+    if st_s != 'ok' or st_a != 'ok':
+        viol(ctx, 'pdhg default step sizes ' + which, 'failed: {} / {}'.format(st_s, st_a), p, n=k)
+    else:
+        st_b, log_b = run_pdhg(steps[0], steps[1])
+        dd = st_b if st_b != 'ok' else sl.arrays_differ(log_a, log_b)
+        if dd:
+            viol(ctx, 'pdhg default step sizes ' + which, 'differs from the run with pdhg_stepsize values: ' + str(dd), p, n=k)
+    c = r.choice([0.5, 1.0, 2.0, 3.0])
+    st_c, got = guarded(pdhg_stepsize, c, t_in, s_in)
+    want = {'both-default': (np.sqrt(0.9) / c, np.sqrt(0.9) / c), 'tau-given': (0.25, 0.9 / (0.25 * c ** 2)),
+            'sigma-given': (0.9 / (0.5 * c ** 2), 0.5)}[which]
+    if st_c != 'ok' or any(abs(u - v) > 1e-12 * abs(v) for u, v in zip(got, want)):
+        viol(ctx, 'pdhg_stepsize closed form ' + which, 'norm {}: got {} want {}'.format(c, got, want), p, n=k)
+    if pdhg_stepsize(A, 0.25, 0.5) != (0.25, 0.5):
+        viol(ctx, 'pdhg_stepsize both given', 'not returned as-is', p, n=k)
+    # landweber(omega=None): 1 / norm(estimate)^2
+    np.random.seed(npseed)
+    st_n, nrm = guarded(A.norm, estimate=True)
+
+    def run_lw(omega):
+        x = unflat(X, x0)
+        rc = Recorder()
+        np.random.seed(npseed)
+        st, _ = guarded(S.landweber, A, x, unflat(Y, sl.dy_vec(random.Random(npseed), m, 8, 8)), k, omega=omega, callback=rc)
+        return st, rc.iterates
+    st_a, log_a = run_lw(None)
+    ctx.hit('oracle/landweber default omega')
+    if st_n != 'ok' or st_a != 'ok':
+        viol(ctx, 'landweber default omega', 'failed: {} / {}'.format(st_n, st_a), p, n=k)
+    else:
+        st_b, log_b = run_lw(1 / nrm ** 2)
+        dd = st_b if st_b != 'ok' else sl.arrays_differ(log_a, log_b)
+        if dd:
+            viol(ctx, 'landweber default omega', 'differs from omega = 1/norm(estimate=True)^2: ' + str(dd), p, n=k)
+    ctx.case(('oracle', 'refusals', p['opkind'], which))
+    return []
+
+
 FAMILIES = {
     'admm': family_admm,
     'adupdates': family_adupdates,
@@ -1428,6 +1910,12 @@ FAMILIES = {
     'pdhg_acc': family_pdhg_acc,
     'cg_restart': family_cg_restart,
     'kaczmarz_random': family_kaczmarz_random,
+    'dca': family_dca,
+    'apg_restart': family_apg_restart,
+    'dr_restart': family_dr_restart,
+    'gauss_newton': family_gauss_newton,
+    'adam': family_adam,
+    'refusals': family_refusals,
 }
 EXPECTED_BRANCHES = [
     'model/admm/opt', 'model/admm/simple', 'model/adupdates/inner', 'model/adupdates/outer',
@@ -1458,6 +1946,17 @@ EXPECTED_BRANCHES = [
     'model/cg_restart/split=proper', 'resume/equal-distinct-space/cg_restart',
     'model/kaczmarz_random/fresh', 'model/kaczmarz_random/resumed(remaining orders)',
     'model/pdhg_acc/nonlinear-op', 'model/pdhg_acc/linear-op',
+    # round 5
+    'model/dca/dca', 'model/dca/prox_dca', 'resume/equal-distinct-space/dca',
+    'model/apg_restart/split=trivial', 'model/apg_restart/split=proper',
+    'model/dr_restart/l-given', 'model/dr_restart/l=None', 'model/dr_restart/lam=callable',
+    'model/dr_restart/lam=number', 'oracle/dr_restart/stepsize=both-default',
+    'oracle/dr_restart/stepsize=tau-given', 'oracle/dr_restart/stepsize=sigma-given',
+    'model/cg_restart/early-return(start is the solution)', 'model/cg_restart/early-return(inner_p_d == 0)',
+    'oracle/gauss_newton/repeatability', 'oracle/gauss_newton/linear-op', 'oracle/gauss_newton/nonlinear-op',
+    'oracle/adam/steps', 'oracle/adam/stopped-by-tol', 'oracle/pdhg default steps/both-default',
+    'oracle/pdhg default steps/tau-given', 'oracle/pdhg default steps/sigma-given',
+    'oracle/landweber default omega',
 ]
 OPAQUE_FAMILIES = ('admm', 'adupdates', 'dpdc', 'proxgrad', 'pdhg')
 
